@@ -103,7 +103,7 @@ func TestVerifC09(t *testing.T) {
 		}
 	}
 	pathNames := []string{"cam1", "test", "x", "live/a", "~^cam[0-9]+$", "~^live/(.+)$", "all"}
-	n := r.N(3000, 150000)
+	n := r.N(3000, 30000)
 	var skippedNoSpelling, bothRejected int64
 	for i := 0; i < n; i++ {
 		// where
